@@ -728,6 +728,7 @@ pub fn run(tier: &str, _seed: u64, outdir: &str) {
                 status_list: usize,
                 reg_idx: i64,
             }
+            let mut x_cases: Vec<String> = vec![];
             let cid1 = cs(&w.cds[1].cred_def_id);
             let (tag, ty, iss1) = (cs("sized"), cs("CL_ACCUM"), cs(&w.cds[1].issuer_id));
             let _ = std::fs::create_dir_all(format!("{}/sized-tails", outdir));
@@ -741,6 +742,8 @@ pub fn run(tier: &str, _seed: u64, outdir: &str) {
                     eprintln!("max-cred-num {} rc={} err={:?} doc={:?}", nname, rc, last_error(), get_json(d));
                 }
                 a(&format!("create_registry:max-cred-num-{}", nname), ok, &mut out);
+                let shown = if rc == 0 { get_json(d).and_then(|v| v["value"]["maxCredNum"].as_i64()) } else { None };
+                x_cases.push(format!("X {} {} {}", sx::s("max_cred_num"), n, match (rc, shown) { (0, Some(j)) => format!("(ok {})", j), (0, None) => "(ok -1)".to_string(), _ => "(err)".to_string() }));
             }
             let _ = std::fs::remove_dir_all(format!("{}/sized-tails", outdir));
             // the registry index of a credential to issue
@@ -774,7 +777,34 @@ pub fn run(tier: &str, _seed: u64, outdir: &str) {
                         rc != 0
                     };
                     a(&format!("create_credential:registry-index-{}", iname), ok, &mut out);
+                    let shown: Option<i64> = if rc == 0 {
+                        let mut p: *const c_char = std::ptr::null();
+                        let k = cs("rev_reg_index");
+                        if unsafe { anoncreds_credential_get_attribute(ch, k.as_ptr(), &mut p) } == 0 && !p.is_null() { unsafe { CStr::from_ptr(p) }.to_string_lossy().parse().ok() } else { None }
+                    } else { None };
+                    x_cases.push(format!("X {} {} {}", sx::s("reg_idx"), idx, match (rc, shown) { (0, Some(j)) => format!("(ok {})", j), (0, None) => "(ok -1)".to_string(), _ => "(err)".to_string() }));
                 }
+            }
+            // the index of a revocation state: a state for index i differs from the state for any other index of the registry
+            {
+                let tp = cs(&w.tails_path);
+                for idx in [1i64, 2, 0, -1, 4294967297, 4294967298, i64::MAX, i64::MIN] {
+                    let mut sh = 0usize;
+                    let rc = unsafe { anoncreds_create_or_update_revocation_state(l.reg_def, l.list0, idx, tp.as_ptr(), 0, 0, &mut sh) };
+                    // which index the state is for: the one whose native state equals it
+                    let shown: Option<i64> = if rc == 0 {
+                        let got = get_json(sh);
+                        (0u32..w.reg.def.value.max_cred_num + 1).find(|i| {
+                            let cur: Option<anoncreds::types::RevocationStatusList> = serde_json::from_value(docs["list0"].clone()).ok();
+                            cur.and_then(|c| anoncreds::prover::create_or_update_revocation_state(&w.tails_path, &w.reg.def, &c, *i, None, None).ok()).map(|n| Some(serde_json::to_value(&n).unwrap()) == got).unwrap_or(false)
+                        }).map(|i| i as i64)
+                    } else { None };
+                    x_cases.push(format!("X {} {} {}", sx::s("rev_reg_index"), idx, match (rc, shown) { (0, Some(j)) => format!("(ok {})", j), (0, None) => "(ok -1)".to_string(), _ => "(err)".to_string() }));
+                }
+            }
+            for body in x_cases.drain(..) {
+                let id = out.next_id();
+                out.case(&format!("(C17 {} {})", id, body), "marshalling:64-bit-index", || json!({"what": "64-bit size / index rule"}));
             }
         }
         let rid = cs(vw::REG_ID);
@@ -798,6 +828,11 @@ pub fn run(tier: &str, _seed: u64, outdir: &str) {
             let rc = unsafe { anoncreds_update_revocation_status_list(l.cred_def1, l.reg_def, rp, l.list0, FfiList::of(issued), FfiList::of(revoked), *ts, &mut nh) };
             // without a timestamp (0 or negative through the C ABI) the list keeps the timestamp it has
             a(&format!("update_status_list:{}", uname), match native { Some(n) => rc == 0 && get_json(nh) == Some(serde_json::to_value(&n).unwrap()), None => rc != 0 }, &mut out);
+            if rc == 0 {
+                let ts_of = |v: Option<Value>| -> String { match v.and_then(|x| x["timestamp"].as_i64()) { Some(t) => format!("({})", t), None => "()".to_string() } };
+                let id = out.next_id();
+                out.case(&format!("(C17 {} T {} {} {})", id, ts_of(get_json(l.list0)), ts, ts_of(get_json(nh))), "marshalling:timestamp-argument", || json!({"what": "timestamp argument rule", "update": uname}));
+            }
             // the holder's state for the updated list, from scratch and from the previous state
             if let (Some(nl), 0) = (get_json(nh), rc) {
                 let nlist: anoncreds::types::RevocationStatusList = serde_json::from_value(nl).unwrap();
